@@ -512,6 +512,27 @@ def rule_isa(ctx):
     ctx.ob("standard_atmosphere.monotone", mono, "h %s, p %s" % ("increasing" if all(a < b for a, b in zip(h, h[1:])) else "NOT increasing",
                                                                  "decreasing" if all(a > b for a, b in zip(p, p[1:])) else "NOT decreasing"),
            "heights strictly increase, pressures strictly decrease and are positive (interp1d over log p is well defined)", node=f.node, func=f)
+    # the three tables describe ONE atmosphere: between adjacent levels the temperature is linear in height, and the tabulated
+    # pressures obey the barometric relation of such a layer (this is how the standard atmosphere is defined) - a mistyped digit in any
+    # of the tables makes the level addressed by height and the level addressed by pressure different levels
+    if len(h) == len(p) == len(t) and mono:
+        import math
+        g0, R_air = 9.80665, 287.053
+        dev = []
+        for i in range(len(h) - 1):
+            T1, T2, dh = t[i] + 273.15, t[i + 1] + 273.15, h[i + 1] - h[i]
+            if T1 <= 0 or T2 <= 0:
+                dev.append((i, float("inf")))
+                continue
+            L = (T2 - T1) / dh
+            p2 = p[i] * math.exp(-g0 * dh / (R_air * T1)) if abs(L) < 1e-12 else p[i] * (T2 / T1) ** (-g0 / (R_air * L))
+            dev.append((i, p2 / p[i + 1] - 1))
+        worst = max(dev, key=lambda x: abs(x[1]))
+        ctx.ob("standard_atmosphere.hydrostatic", abs(worst[1]) <= 2e-3,
+               "largest relative deviation of a tabulated pressure from the barometric relation of its layer: %.2e (level %d, %s m)" % (worst[1], worst[0] + 1, h[worst[0] + 1]),
+               "|p_table / p_barometric - 1| <= 2e-3 for every layer (today's table: 5e-4; a transposed digit: 2e-2)", node=f.node, func=f,
+               witness=None if abs(worst[1]) <= 2e-3 else {"level": worst[0] + 1, "height": h[worst[0] + 1], "pressure in table": p[worst[0] + 1],
+                                                            "relative deviation": worst[1]})
     # the interpolation interp1d(X, T)(Z): in pressure coordinates both X and Z are logarithms, in height coordinates neither
     flow = Flow(f)
     ip = [c for c in calls_in(f.node, "interp1d")]
